@@ -87,7 +87,7 @@ func npkgs(t *rapid.T) int {
 // ---- npm ------------------------------------------------------------------------
 
 var npmVersionPool = []string{"1.0.0", "1.1.0", "1.2.0", "2.0.0", "2.1.0", "1.0.0-beta.1", "3.0.0-rc.1", "0.9.0", "1.1.1"}
-var npmRanges = []string{"^1.0.0", "~1.1.0", ">=1.0.0 <2.0.0", "1.x", "*", "1.0.0 - 1.2.0", "^1.0.0 || ^2.0.0", "<2", "1.1.0", "2.0.0", ">=2.0.0", "^2.0.0", "~1.0.0", "<=1.1.0", ">1.1.0", "^0.9.0", "1", ">=1.0.0-beta.1", "^3.0.0-rc.1", "=1.2.0", "~>1.1", "x"}
+var npmRanges = []string{"^1.0.0", "~1.1.0", ">=1.0.0 <2.0.0", "1.x", "*", "1.0.0 - 1.2.0", "^1.0.0 || ^2.0.0", "<2", "1.1.0", "2.0.0", ">=2.0.0", "^2.0.0", "~1.0.0", "<=1.1.0", ">1.1.0", "^0.9.0", "1", ">=1.0.0-beta.1", "^3.0.0-rc.1", "=1.2.0", "~>1.1", "x", "*", "*", "*", ""}
 
 type NPMOpts struct {
 	Aliases bool
